@@ -34,6 +34,8 @@ type c06Case struct {
 	Input    string        `json:"input,omitempty"` // informational copy when short and valid UTF-8
 	Shape    string        `json:"shape,omitempty"` // how the input was made
 	Text     string        `json:"grammar_text,omitempty"`
+	// ... or a token-list parser over a generated stateful lexer definition
+	RS *lexgen.RuleSet `json:"rules,omitempty"`
 }
 
 func (c *c06Case) bytes() []byte {
@@ -85,6 +87,35 @@ func putForGrammar(b *gram.Built) *put {
 		}
 		return ast, err
 	}, lex: func(filename string, in []byte) ([]lexer.Token, error) { return b.P.Lex(filename, bytes.NewReader(in)) }}
+}
+
+// putForRules is a parser that accepts any token stream of a generated stateful lexer definition: whatever the
+// lexer does with hostile input reaches the caller of Parse* through the parser.
+func putForRules(rs *lexgen.RuleSet) (*put, string) {
+	def, err := lexer.New(rs.ToRules())
+	if err != nil {
+		return nil, err.Error()
+	}
+	p, err := participle.Build[tokenList](participle.Lexer(def))
+	if err != nil {
+		return nil, err.Error()
+	}
+	return &put{name: "token-list over generated rules", parse: func(entry, filename string, in []byte, opts ...participle.ParseOption) (any, error) {
+		var ast *tokenList
+		var err error
+		switch entry {
+		case "bytes":
+			ast, err = p.ParseBytes(filename, in, opts...)
+		case "reader", "slowreader":
+			ast, err = p.Parse(filename, bytes.NewReader(in), opts...)
+		default:
+			ast, err = p.ParseString(filename, string(in), opts...)
+		}
+		if ast == nil {
+			return nil, err
+		}
+		return ast, err
+	}, lex: func(filename string, in []byte) ([]lexer.Token, error) { return p.Lex(filename, bytes.NewReader(in)) }}, ""
 }
 
 const c06Rule = "parsers: hand-ported copies of the repository's example grammars (ini, json, hcl, toml, sql, microc, graphql, ...) and " +
@@ -520,6 +551,23 @@ func propC06(t *rapid.T, r *vstat.Run) {
 			}
 			report(t, r, o, c)
 		default:
+			if rapid.IntRange(0, 5).Draw(t, "ruleslexer") == 0 {
+				// a parser over a generated stateful lexer (Pop/Return reachable in the root state, back-references, ...)
+				gen := lexgen.GenRuleSet(t, lexgen.RuleOpts{})
+				p, rej := putForRules(gen.RS)
+				if rej != "" {
+					r.Count("definition_rejected")
+					return
+				}
+				for i := 0; i < 4; i++ {
+					c := newC06Case([]byte(gen.GenInput(t)))
+					c.RS, c.Entry, c.Filename, c.Shape = gen.RS, entry, filename, "generated_lexer"
+					o := checkC06(p, c, r)
+					r.NonTrivial(mustJSON(c), func() any { cc := *c; cc.Text = gen.RS.String(); return cc })
+					report(t, r, o, c)
+				}
+				return
+			}
 			var g *gram.Grammar
 			recursive := rapid.IntRange(0, 4).Draw(t, "recsys") == 0
 			if recursive {
@@ -587,6 +635,13 @@ func TestC06Replay(t *testing.T) {
 				return outcome{}
 			}
 			return checkC06Stack(f, nil)
+		}
+		if c.RS != nil {
+			p, rej := putForRules(c.RS)
+			if rej != "" {
+				return outcome{}
+			}
+			return checkC06(p, &c, nil)
 		}
 		if c.G != nil {
 			b, msg := buildGrammar(c.G)
